@@ -1811,8 +1811,11 @@ func ValueEqual(a *VMValue, b *VMValue, autoConvert bool) bool {
 }
 
 // valueEqualRaw compares structurally; comparing records the container pairs whose
-// comparison is in progress, so that containers which contain themselves or each
+// comparison has begun, so that containers which contain themselves or each
 // other terminate (a pair met again is taken as equal: nothing has told them apart).
+// A pair stays recorded after it was found equal: values that share sub-structure
+// (x=[x,x] built n times has 2^n paths but n containers) compare in time linear in
+// the number of containers; a pair found unequal ends the whole comparison anyway.
 func valueEqualRaw(a *VMValue, b *VMValue, autoConvert bool, comparing map[[2]any]bool) bool {
 	if a == b {
 		return true
@@ -1840,7 +1843,6 @@ func valueEqualRaw(a *VMValue, b *VMValue, autoConvert bool, comparing map[[2]an
 				comparing = map[[2]any]bool{}
 			}
 			comparing[pair] = true
-			defer delete(comparing, pair)
 			for index, i := range arr1.List {
 				if !valueEqualRaw(i, arr2.List[index], autoConvert, comparing) {
 					return false
@@ -1864,7 +1866,6 @@ func valueEqualRaw(a *VMValue, b *VMValue, autoConvert bool, comparing map[[2]an
 				comparing = map[[2]any]bool{}
 			}
 			comparing[pair] = true
-			defer delete(comparing, pair)
 			isSame := true
 			d1.Dict.Range(func(key string, value *VMValue) bool {
 				other, exists := d2.Dict.Load(key)
